@@ -1017,6 +1017,22 @@ def commute_timer(evs):
     return evs
 
 
+def same_branch_window(pevents):
+    """True when the timer thread reset branch i between the status update of i's own done-callback and that callback's
+    decision (possible only when the resume instant is already due at the moment it is scheduled).  The Par model's
+    `finish` is atomic with the decision, and unlike a reset of ANOTHER branch this one cannot be commuted in front of
+    the `finish`: such runs lie outside the model's granularity (DESIGN.md section 9) and are judged by the oracles only."""
+    for k, e in enumerate(pevents):
+        if e[0] != "finish":
+            continue
+        for x in pevents[k + 1:]:
+            if x[0] in ("decide", "finish.end"):
+                break
+            if x[0] == "reset" and x[2] == e[2]:
+                return True
+    return False
+
+
 def derive_par_actions(pevents):
     """Events of ONE executor run (between exec.start and exec.end) -> Par model actions."""
     acts = []
@@ -1104,6 +1120,9 @@ def compare_par(ctx, sc, inv, component="executor.par", seed=None):
         return
     blocks = [b for b in sc["blocks"] if b["kind"] in ("map", "parallel")]
     if len(blocks) != 1 or not inv.get("pevents"):
+        return
+    if same_branch_window(inv["pevents"]):
+        ctx.count("par.same_branch_window_skipped")
         return
     d = derive_par_actions(inv["pevents"])
     if d is None or d["n"] == 0 or d["end"] is None or d["end"][3] == "SimAbort":
